@@ -1173,6 +1173,8 @@ func phaseHistory(t *testing.T, e *env, rng *rand.Rand, out *hx.Out) {
 				entries = nil
 				e.setSwitch(t, cctx, []string{})
 			}
+			// a call whose own frame returns normally but is dropped by the EVM afterwards (class: "granted / moved in a reverted frame")
+			undo := !scripted && strings.HasSuffix(rt.name, ">y") && kind == evmx.KCall && method != "view" && rng.Intn(5) == 0
 			// build the transaction along the route
 			sender := byID[rt.origin].signer
 			var tx *evmtypes.MsgEthereumTx
@@ -1189,7 +1191,12 @@ func phaseHistory(t *testing.T, e *env, rng *rand.Rand, out *hx.Out) {
 				}
 				nodes := []*evmx.Node{nd}
 				if strings.HasSuffix(rt.name, ">y") {
-					nodes = []*evmx.Node{{Op: "call", ID: 1, Kind: evmx.KCall, To: e.y, Swallow: true, Body: []*evmx.Node{nd}}}
+					body := []*evmx.Node{nd}
+					if undo {
+						// the frame that made the call REVERTs afterwards; its caller catches that and the transaction succeeds
+						body = append(body, &evmx.Node{Op: "revert", ID: 3})
+					}
+					nodes = []*evmx.Node{{Op: "call", ID: 1, Kind: evmx.KCall, To: e.y, Swallow: true, Body: body}}
 					preFrame = 2
 				}
 				if err := evmx.InstallTree(cctx, app, e.x, nodes); err != nil {
@@ -1229,6 +1236,9 @@ func phaseHistory(t *testing.T, e *env, rng *rand.Rand, out *hx.Out) {
 			status := hStatus(errText)
 			if method != "transferShares" && method != "transferFromShares" && strings.HasPrefix(status, "ran:err") {
 				status = "ran:err"
+			}
+			if undo && status == "ran:ok" {
+				status = "undone"
 			}
 			succeeded := status == "ran:ok"
 			// observation
@@ -1274,12 +1284,19 @@ func phaseHistory(t *testing.T, e *env, rng *rand.Rand, out *hx.Out) {
 			default:
 				obs = "-"
 			}
-			out.Emit(fmt.Sprintf("h %s %d %d %s %s %s %s %s", kind, rt.caller, rt.origin, to.Hex(), mid, entStr(entries), method, argStr), status+" "+obs)
+			opw := "h"
+			if status == "undone" {
+				opw = "hu"
+			}
+			out.Emit(fmt.Sprintf("%s %s %d %d %s %s %s %s %s", opw, kind, rt.caller, rt.origin, to.Hex(), mid, entStr(entries), method, argStr), status+" "+obs)
 			out.Count("hist:" + method + ":" + status)
 			out.Count("hist:route:" + rt.name + ":" + kind.String())
 			out.Nontrivial(fmt.Sprintf("h|%s|%s|%s|%s|%v", method, rt.name, kind, status, len(entries) > 0))
 			// monitors
 			changed := hx.DiffDump(dumpBefore, e.dump(cctx))
+			if status == "undone" && len(changed) > 0 {
+				violate(out, "a precompile call made in a frame that REVERTed afterwards (caught by its caller, the transaction succeeded) changed Cosmos stores "+fmt.Sprint(changed)+": what was granted / moved in a dropped frame must not exist: "+desc)
+			}
 			if strings.HasPrefix(status, "blocked") && len(changed) > 0 {
 				violate(out, "blocked precompile call changed Cosmos stores "+fmt.Sprint(changed)+" "+desc)
 			}
